@@ -23,6 +23,21 @@ CLAIMED = {
              "bit-exact op-sequence differential through the verification hook. Partial: gradual-calculator lifetimes and the "
              "decoder scratch buffer are not modelled yet.",
         tech="Coq refinement proof (induction over op sequences) + model/impl correspondence"),
+    "C12": dict(
+        text="Coq theorems for ALL attribute shapes / provided subsets / priorities / origins / passed_objects (osu! and taiko): "
+             "misses <= objects, hit results within the non-missed objects, sum = objects whenever the clamped provided results "
+             "fit, provided results never reduced and kept exactly when another result is free, combo <= achievable, slider "
+             "hits within maxima, and idempotence of generate_state; the float search is quantified away (any candidate of the "
+             "window). Catch is modelled and tied by correspondence (no theorem yet), mania is checked by the direct oracle only "
+             "(partial). calculate() == state(generated).calculate() is checked on the implementation.",
+        tech="Coq proofs over a branch-for-branch model of generate_state + bit-exact model/impl correspondence + direct oracle"),
+    "C13": dict(
+        text="Finite-but-complete Coq theorems (kernel VM evaluation of the float model that is run against the code): on the "
+             "property's exhaustive small domain (osu 115k cases, taiko 2k, catch 25k) the generated state has the requested "
+             "misses and is within 1e-12 of the best distance over all distributions. Mania and sizes beyond the domain: brute "
+             "force with exact rationals on the implementation (exhaustive on the small domain in the thorough tier, sampled "
+             "above). No unbounded optimality theorem (partial).",
+        tech="Coq vm_compute exhaustive enumeration over the float model + model/impl correspondence + exact-rational brute force"),
     "C14": dict(
         text="Coq theorems about the one-shot models: counts are those of the first min(n,total) units, osu circles+sliders+spinners "
              "= min(n,total), catch fruits+droplets = min(n,palpables), mania n_objects/hold notes of the prefix, taiko combo = "
